@@ -2093,14 +2093,17 @@ class Data(BaseCartesianData):
                 return np.zeros(bins)
             xmin = np.log10(xmin)
             xmax = np.log10(xmax)
-            x = np.log10(x)
+            # Note that we use float64, since np.log10 otherwise returns float16
+            # or float32 values for small integer and float types, which are then
+            # not consistent with xmin and xmax.
+            x = np.log10(np.asarray(x, dtype=float))
 
         if ndim > 1 and log is not None and log[1]:
             if ymin < 0 or ymax < 0:
                 return np.zeros(bins)
             ymin = np.log10(ymin)
             ymax = np.log10(ymax)
-            y = np.log10(y)
+            y = np.log10(np.asarray(y, dtype=float))
 
         # By default fast-histogram drops values that are exactly xmax, so we
         # increase xmax very slightly to make sure that this doesn't happen, to
